@@ -387,8 +387,8 @@ impl Gen {
     fn f_iris(&mut self) {
         self.shape("odd-local-names");
         let g = self.graph();
-        let s = gen_iri(&mut self.r); let p = if self.r.chance(1, 2) { gen_iri(&mut self.r) } else { self.pred() }; let o = gen_iri(&mut self.r);
-        self.add(&g, T::Iri(s), if let T::Iri(p) = p { T::Iri(p) } else { unreachable!() }, T::Iri(o));
+        let s = gen_iri(&mut self.r); let p = if self.r.chance(1, 2) { T::Iri(gen_iri(&mut self.r)) } else { self.pred() }; let o = gen_iri(&mut self.r);
+        self.add(&g, T::Iri(s), p, T::Iri(o));
     }
     fn f_nil(&mut self) {
         let g = self.graph();
@@ -469,6 +469,9 @@ fn gen_shape_case(r: Rng) -> Case {
     let prefixes = gen_prefixes(&mut g.r);
     let indent = gen_indent(&mut g.r);
     if !trig { for q in g.quads.iter_mut() { q.0 = None; } }
+    // the input is a SET of quads (the streaming serializers write what they are given)
+    let mut seen = BTreeSet::new();
+    g.quads.retain(|q| seen.insert((q.0.as_ref().map(canon), [canon(&q.1[0]), canon(&q.1[1]), canon(&q.1[2])])));
     g.shapes.sort();
     Case { shapes: g.shapes, quads: g.quads, prefixes, indent, pretty, trig }
 }
